@@ -115,6 +115,14 @@ func gen(t *rapid.T) Case {
 			if rapid.Bool().Draw(t, "rmMethods") {
 				s.Methods = rapid.SampledFrom(methodSets[:4]).Draw(t, "rmm")
 				s.Drain = rapid.Bool().Draw(t, "rmDrain")
+				if !s.Drain && rapid.IntRange(0, 3).Draw(t, "rmIgnored") == 0 {
+					// names that a removal ignores by contract (what strings.Split leaves behind, the automatic methods,
+					// another letter case): the automatic handlers and their middlewares must stay as they are
+					s.Methods = append(append([]string{}, s.Methods...), rapid.SampledFrom([]string{"", "HEAD", "OPTIONS", "get", " "}).Draw(t, "rmIgnoredName"))
+					if rapid.Bool().Draw(t, "rmOnlyIgnored") {
+						s.Methods = s.Methods[len(s.Methods)-1:]
+					}
+				}
 			}
 		case k < 18 && rapid.IntRange(0, 2).Draw(t, "cleanInstead") == 0:
 			s = Step{Kind: "clean", Router: rapid.IntRange(0, 1).Draw(t, "cleanRouter")}
